@@ -1,6 +1,7 @@
 (** C15 — strongly connected components are computed exactly by all four algorithms.
     Statements and [Print Assumptions] only. *)
-From WG Require Import Base.Prelude Algo.Scc Algo.SccStatements Algo.SccFacts Algo.SccOrder.
+From WG Require Import Base.Prelude Algo.Scc Algo.SccStatements Algo.SccFacts Algo.SccOrder
+  Algo.SccTarjan.
 Local Open Scope nat_scope.
 
 (** the executable closure used by the checker computes reachability *)
@@ -76,6 +77,14 @@ Theorem C15_tarjan_partial : S_tarjan_upto4.
 Proof. exact tarjan_upto4. Qed.
 Print Assumptions C15_tarjan_partial.
 
+(** Tarjan (the event-handler model of algo/src/sccs/tarjan.rs: decreasing timestamps,
+    [high_link] reused as the output, the lead bit stack, the component stack, the early exit
+    with the drain of the visit stack): for every well-formed graph, no size bound, the output
+    is the partition into strongly connected components with dense indices *)
+Theorem C15_tarjan : S_tarjan.
+Proof. exact tarjan_correct. Qed.
+Print Assumptions C15_tarjan.
+
 Theorem C15_kosaraju_upto4 : S_kosaraju_upto4.
 Proof. exact kosaraju_upto4. Qed.
 Print Assumptions C15_kosaraju_upto4.
@@ -90,6 +99,18 @@ Proof.
   cbv zeta. split; [apply wf_graphb_spec; vm_compute; reflexivity|].
   split; [vm_compute; reflexivity|]. split; [vm_compute; reflexivity|]. split; [vm_compute; reflexivity|].
   apply transpose_is_transpose. apply wf_graphb_spec. vm_compute. reflexivity.
+Qed.
+
+(** the early exit of Tarjan's algorithm (all nodes discovered and a high link equal to the
+    root's: the visit is interrupted and the visit path drained) is covered by [C15_tarjan] *)
+Example C15_nonvacuous_tarjan_early :
+  let g := [[1];[2;0];[3];[1;0]] in
+  wf_graph g /\ tarjan_early g = true /\ tarjan g = ([0;0;0;0], 1)
+  /\ is_scc_partition g (fst (tarjan g)) (snd (tarjan g)).
+Proof.
+  cbv zeta. assert (H : wf_graph [[1];[2;0];[3];[1;0]]) by (apply wf_graphb_spec; vm_compute; reflexivity).
+  split; [exact H|]. split; [vm_compute; reflexivity|]. split; [vm_compute; reflexivity|].
+  apply C15_tarjan. exact H.
 Qed.
 
 Example C15_nonvacuous_symm :
